@@ -279,15 +279,21 @@ def persist_scenarios(tier, rnd):
             for j in (1, 2, 3, 4):
                 sc.append(hist(h) + [{"op": "flush", "crash_at": k}, {"op": "crash"}, {"op": "load", "crash_at": j}, {"op": "load"},
                                      {"op": "flush"}, {"op": "crash"}, {"op": "load"}])
+    # content that comes back: a later state equal to an earlier one (byte-identical files)
+    for k in K:
+        for back in (1, 2):
+            sc.append([{"op": "flush"}, {"op": "mutate"}, {"op": "flush"}, {"op": "mutate"}, {"op": "flush", "crash_at": k}, {"op": "crash"},
+                       {"op": "load"}, {"op": "mutate", "to": back}, {"op": "flush"}, {"op": "crash"}, {"op": "load"}])
     n_rand = 300 if tier == "quick" else 4000
     for _ in range(n_rand):
         ops = []
         for _ in range(rnd.randint(2, 6)):
             r = rnd.random()
+            mut = {"op": "mutate"} if rnd.random() < 0.6 else {"op": "mutate", "to": rnd.randint(1, 3)}
             if r < 0.3:
-                ops += [{"op": "mutate"}, {"op": "flush"}]
+                ops += [mut, {"op": "flush"}]
             elif r < 0.8:
-                ops += [{"op": "mutate"}, {"op": "flush", "crash_at": rnd.randint(1, 16)}, {"op": "crash"},
+                ops += [mut, {"op": "flush", "crash_at": rnd.randint(1, 16)}, {"op": "crash"},
                         {"op": "load"} if rnd.random() < 0.8 else {"op": "load", "crash_at": rnd.randint(1, 4)}, {"op": "load"}]
             else:
                 ops += [{"op": "crash"}, {"op": "load"}]
